@@ -472,9 +472,15 @@ pub fn worker(args: &[String]) -> i32 {
     for i in lo..hi.min(muts.len()) {
         current.store(i, Ordering::SeqCst);
         *started.lock().unwrap() = std::time::Instant::now();
-        let mut m = img.clone();
-        apply(&mut m, &muts[i]);
-        let verdict = probe(&m, &scratch);
+        // a panic here is the harness' own (store calls are individually guarded in `probe`)
+        let verdict = match catch_unwind(AssertUnwindSafe(|| {
+            let mut m = img.clone();
+            apply(&mut m, &muts[i]);
+            probe(&m, &scratch)
+        })) {
+            Ok(v) => v,
+            Err(p) => format!("MACH harness panic: {}", crate::sut::panic_text(p)),
+        };
         let mut o = out.lock();
         let _ = writeln!(o, "{i} {verdict}");
         let _ = o.flush();
@@ -517,7 +523,18 @@ pub fn check(tier: &str, budget_s: f64, report: &mut Report) {
                     }
                 }
             }
-            let abnormal = if out.status.success() { None } else { Some(format!("{:?}", out.status)) };
+            // exit code 3 = our own watchdog (hang, already reported on stdout); a fatal
+            // signal / abort = the store took the process down; anything else = machinery
+            let abnormal = if out.status.success() {
+                None
+            } else {
+                use std::os::unix::process::ExitStatusExt;
+                if out.status.signal().is_some() || out.status.code() == Some(3) || out.status.code() == Some(134) {
+                    Some(format!("{:?}", out.status))
+                } else {
+                    Some(format!("MACHINERY {:?}", out.status))
+                }
+            };
             (lines, abnormal)
         };
         std::thread::scope(|sc| {
@@ -566,6 +583,8 @@ pub fn check(tier: &str, budget_s: f64, report: &mut Report) {
                 } else {
                     *rejected.entry(rest.trim_start_matches("err ").to_string()).or_insert(0) += 1;
                 }
+            } else if let Some(m) = verdict.strip_prefix("MACH ") {
+                report.machinery(format!("[{name} mutation #{i}] {m}"));
             } else if bad < 6 {
                 bad += 1;
                 let head: String = verdict.chars().take(100).collect();
@@ -578,6 +597,10 @@ pub fn check(tier: &str, budget_s: f64, report: &mut Report) {
         }
         for (i, _, status) in crashed.into_inner().unwrap() {
             if results.iter().any(|(j, v)| *j == i && v.starts_with("BAD hang")) {
+                continue;
+            }
+            if status.starts_with("MACHINERY") {
+                report.machinery(format!("[{name}] image worker exited abnormally near mutation #{i}: {status}"));
                 continue;
             }
             if i < n {
